@@ -2175,6 +2175,10 @@ impl<'a, W: Write + 'a> Serializer<'a, W> {
                     }; //Savefile always serializes most recent version. Only savefile-abi ever writes old formats.
                     data.serialize(&mut serializer)?;
                     compressed_writer.flush()?;
+                    // Write the end of the compressed stream here, so that a failure of the underlying
+                    // writer is reported. (Left to BzEncoder's Drop, such an error would be swallowed.)
+                    compressed_writer.try_finish()?;
+                    compressed_writer.get_mut().flush()?;
                     return Ok(());
                 }
                 #[cfg(not(feature = "bzip2"))]
